@@ -51,11 +51,11 @@ def handler_method_of(ctx, variant):
 
 def store_method_for_opcode(ctx, handler_meth, argname, op):
     f = ctx.facts
-    b = f.one(HANDLER + "::" + handler_meth)
     hdr = Struct(None, None, 0, OrderedDict([("opcode", op)]), F(P(argname), "header"))
     req = Struct(None, None, 0, OrderedDict([("header", hdr)]), P(argname))
+    b, hargs = dispatch.handler_body_args(ctx, handler_meth, argname, op, payload=req)
     I = Interp(f, policy=lambda body, args: "opaque" if body.path.startswith(MEMC + "::") else "inline")
-    paths = I.run(b, [P("self"), req, P("response_header")])
+    paths = I.run(b, hargs)
     out = set()
     for p in paths:
         for e in p.events:
@@ -85,10 +85,14 @@ def r1(ctx):
         somes, t = decoded_variant(ctx, op)
         rep.check(somes == [variant], "decode:%#04x" % op, "%#04x decodes to %s" % (op, variant), "opcode %#04x decodes to %s, the protocol says %s" % (op, somes, variant), safe_loc(f, CODEC + "::parse_request"))
         hm = handler_method_of(ctx, variant)
-        rep.check(hm == {hmeth}, "handle:%s" % variant, "%s handled by BinaryHandler::%s" % (variant, hmeth), "request variant %s is handled by %s, expected BinaryHandler::%s" % (variant, sorted(hm or []), hmeth), safe_loc(f, HANDLER + "::handle_request"))
+        # a request of this variant reaches the store through add/replace (Add, Replace) resp. append/prepend only: which
+        # of the two it is for this very opcode is the next check
+        reach = dispatch.store_methods_of_variant(ctx, variant)
+        fam = {"add", "replace"} if hmeth == "add_replace" else {"append", "prepend"}
+        rep.check(bool(reach) and reach <= fam and smeth in reach, "handle:%s" % variant, "%s is dispatched to the %s commands" % (variant, "/".join(sorted(fam))), "request variant %s reaches MemcStore::%s, expected %s" % (variant, sorted(reach), smeth), safe_loc(f, HANDLER + "::handle_request"))
         argname = "request" if hmeth == "add_replace" else "append_req"
         sm, _paths = store_method_for_opcode(ctx, hmeth, argname, op)
-        rep.check(sm == {smeth}, "store-method:%#04x" % op, "%#04x -> MemcStore::%s" % (op, smeth), "opcode %#04x reaches MemcStore::%s, the protocol says %s" % (op, sorted(sm), smeth), safe_loc(f, HANDLER + "::" + hmeth))
+        rep.check(sm == {smeth}, "store-method:%#04x" % op, "%#04x -> MemcStore::%s" % (op, smeth), "opcode %#04x reaches MemcStore::%s, the protocol says %s" % (op, sorted(sm), smeth), safe_loc(f, HANDLER + "::handle_request"))
         rep.sample({"opcode": "%#04x" % op, "variant": somes, "handler": sorted(hm or []), "store": sorted(sm)})
     return rep
 
@@ -234,7 +238,7 @@ def r4(ctx):
                 why = "key=%s value=%s" % (short(key, 100), short(val, 140))
         rep.check(ok, "layout:%#04x" % op, "key at body offset 0 (key_length bytes), value after it", "append/prepend frame %#04x is sliced as %s" % (op, why), safe_loc(f, CODEC + "::parse_append_prepend_request"))
     # handler: Record::new(value <- req.value, cas <- req.header.cas), key <- req.key
-    b = f.one(HANDLER + "::append_prepend")
+    b, _hargs = dispatch.handler_body_args(ctx, "append_prepend", "append_req")
     for op in (0x0E, 0x0F):
         sm, paths = store_method_for_opcode(ctx, "append_prepend", "append_req", op)
         ok = bool(paths)
